@@ -788,6 +788,23 @@ def render(blocks, finale=False):
     return s
 
 
+def render_loop(blocks, gc=True):
+    """The same program as a SESSION for the interactive loop: every block's call is a top-level step
+    of its own, with `#int gc' (the loop's own collection command, which first clears the part of the
+    interpreter's stacks that is out of use) between the steps."""
+    s = "#int verbose off\n#int timing off\n" + HEADER
+    for kind, d, call in blocks:
+        s += d
+    # two passes: what a step left behind (deep interpreter stacks, caches) meets the collection
+    # command and is then used again
+    for rnd in (0, 1):
+        for i, (kind, d, call) in enumerate(blocks):
+            s += 'print << "@%d.%d " << %s << newline;\n' % (rnd, i + 1, call)
+            if gc:
+                s += "#int gc\n"
+    return s
+
+
 def gen_program(rng, size="small", force=(), finale=False):
     return render(gen_blocks(rng, size, force), finale=finale)
 
